@@ -299,6 +299,15 @@ func c14Run(c *Ctx) {
 			}
 		}
 	}
+	// a plain assignment evaluates its value before the store, also when the store then fails (no such variable)
+	for _, src := range []string{
+		pre + Lines(Print(`"start"`), `ghost = p("C", 0) || p("D", 6);`, Print(`"AFTER"`)),
+		pre + Lines(Fun("f", "", ` ghost2 = [p("A", 1), p("B", 2)]; `), "f();", Print(`"AFTER"`)),
+	} {
+		if c.Mine() {
+			c14Judge(c, &Case{Gen: "handwritten", Src: src})
+		}
+	}
 	// access chains: an inner link is read before the subscripts to its right are evaluated
 	for _, src := range []string{
 		pre + Lines(Var("grid", "[[1, 2, 3], [4, 5, 6]]"), Print("grid[0][(grid[0] = [70, 80, 90])[0] - 70]"), Print("grid"), Var("scr", "[[1, 1], [2, 2]]"), Fun("swap", "", " "+Var("t", "scr[0]")+" scr[0] = scr[1]; scr[1] = t; "+Ret("0")+" "), Print("scr[0][swap()]"), Print("scr[0][0]")),
